@@ -481,16 +481,31 @@ def check_ignore(case) -> Case:
     victim = targets[case["pick"] % len(targets)]
     pat = [victim, "src/" + os.path.basename(victim), "**/" + os.path.basename(victim)][case["form"] % 3]
     cfg = {**base, "ignore": [pat]}
-    e, after, err, _ = run_with(files, L["cmd"], case["carrier"], "hyphen", cfg)
+    # the repository's .thailintignore next to the configuration's list: absent, naming nothing that exists, or naming a
+    # second file - both sources are honoured together
+    tig = case.get("tig", 0)
+    gone = {victim}
+    files2 = dict(files)
+    if tig == 1:
+        files2[".thailintignore"] = "docs/never_there/**\n"
+    elif tig == 2 and L["cmd"] in ("dry", "stringly-typed"):
+        tig = 1  # cross-file findings of the remaining files depend on how many files take part: one victim only
+        files2[".thailintignore"] = "docs/never_there/**\n"
+    elif tig == 2 and len(targets) > 1:
+        second = targets[(case["pick"] + 1) % len(targets)]
+        files2[".thailintignore"] = second + "\n"
+        gone.add(second)
+    labels.append(f"thailintignore={['absent', 'unrelated', 'second-file'][tig]}")
+    e, after, err, _ = run_with(files2, L["cmd"], case["carrier"], "hyphen", cfg)
     if L["cmd"] in ("dry", "stringly-typed"):  # cross-file findings: the message names the counterpart files
         before = Counter({k[:3]: n for k, n in before.items()})
         after = None if after is None else Counter({k[:3]: n for k, n in after.items()})
-    want = Counter({k: n for k, n in before.items() if k[1] != victim})
+    want = Counter({k: n for k, n in before.items() if k[1] not in gone})
     if after is None:
         failures.append(Failure(f"ignore|{case['carrier']}|bad-exit-{e}", {"cfg": cfg, "stderr": err}))
     elif after != want:
         kind = "not-honoured" if after == before else "differs"
-        failures.append(Failure(f"ignore|{case['carrier']}|{['exact', 'exact', '**/name'][case['form'] % 3]}|{kind}", {"cfg": cfg, "cmd": L["cmd"], **runner.diff_multisets(want, after)}))
+        failures.append(Failure(f"ignore|{case['carrier']}|{['exact', 'exact', '**/name'][case['form'] % 3]}|{kind}" + ("|with-thailintignore" if tig else ""), {"cfg": cfg, "cmd": L["cmd"], **runner.diff_multisets(want, after)}))
     return Case(key=h(["ignore", name, case["carrier"], case["form"] % 3]), nontrivial=len(targets) > 1, labels=labels, failures=failures)
 
 
@@ -588,7 +603,7 @@ def matrix_cells():
         for carrier in CARRIERS:
             cells.append({"kind": "invalid", "what": "unparsable", "linter": name, "section": L["sections"][0], "carrier": carrier, "spelling": "hyphen"})
             for form in range(3):
-                cells.append({"kind": "ignore", "linter": name, "carrier": carrier, "form": form, "pick": form})
+                cells.append({"kind": "ignore", "linter": name, "carrier": carrier, "form": form, "pick": form, "tig": (form + 1) % 3})
     return cells
 
 
